@@ -97,6 +97,29 @@ def check_state(mab, cf):
     return out, ties
 
 
+def probe_after_queries(mab, cf, labels):
+    """The bandit itself answers queries, then one arm is removed and another added (same arm count), then
+    predict and predict_expectations - from copies of that state - must still agree."""
+    arms = list(mab.arms)
+    new = S.LABELS[labels][1]
+    if new in arms or len(arms) < 2:
+        return []
+    q = None if cf else [[0, 0], [1, 1], [2, 2]]
+    out = []
+    for seq in ([["remove_arm", arms[0]], ["add_arm", new]], [["add_arm", new], ["remove_arm", arms[0]]]):
+        m = copy.deepcopy(mab)
+        try:
+            m.predict(*(() if q is None else (copy.deepcopy(q),)))
+            for op in seq:
+                ops.apply(m, op)
+            ops.apply(m, ["partial_fit", [new], [1], None if cf else [[1, 1]]])
+        except Exception:                                     # noqa: BLE001
+            continue
+        bad, _ = check_state(m, cf)
+        out += [("probe %s" % "+".join(o[0] for o in seq), "%s: %s" % (ql, msg)) for ql, msg in bad]
+    return out
+
+
 def run_shard(shard):
     ln, nn, labels = shard["ln"], shard["nn"], shard["labels"]
     arms0 = S.initial_arms(labels)
@@ -112,6 +135,8 @@ def run_shard(shard):
             return
         acc.traces += 1
         bad, ties = check_state(mab, cf)
+        if not bad:
+            bad = probe_after_queries(mab, cf, labels)
         for ql, _q in S.query_sets(cf):
             acc.case(("%s/%s/%s" % (ln, nn, labels), tuple(map(str, hist)), ql) if ql in ties else None)
         acc.outcome([len(bad), sorted(ties)])
@@ -129,5 +154,9 @@ def replay(w):
     mab = ops.build(cfg)
     for op in w["history"]:
         ops.apply(mab, op)
-    bad, _ = check_state(mab, ops.is_context_free(cfg))
+    cf = ops.is_context_free(cfg)
+    bad, _ = check_state(mab, cf)
+    if not bad:
+        labels = "int" if isinstance(cfg["arms"][0], int) else "str" if isinstance(cfg["arms"][0], str) else "float"
+        bad = probe_after_queries(mab, cf, labels)
     return ["%s: %s" % x for x in bad]
